@@ -34,6 +34,8 @@ func scenarios(tier string) []vlib.Scenario {
 	var out []vlib.Scenario
 	add := func(p params) { out = append(out, vlib.Scenario{Name: p.name(), P: p}) }
 	add(params{W: "W8-failure-four-streams", F: 0, P: 1})
+	add(params{W: "W9-opens-during-outage", F: 1, P: 0})
+	add(params{W: "W9-opens-during-outage", F: 1, P: 1})
 	for _, w := range []string{"W1-open-close-beside-traffic", "W2-up-down-state-readers", "W3-failure-two-streams", "W4-calls-metadata-reconnect", "W5-reconnect-transport", "W6-multi", "W7-store"} {
 		f := 0
 		if strings.HasPrefix(w, "W3") || strings.HasPrefix(w, "W4") {
@@ -226,6 +228,14 @@ func (w *world) connWorkload() {
 		})
 		vsched.Sleep(90*time.Millisecond, "h:cut")
 		w.B.Cut(w.B.Live())
+	case strings.HasPrefix(w.p.W, "W9"):
+		// streams are opened while the connection is down; a second failure (budget F) may hit the recovery
+		w.B.Cut(w.B.Live())
+		spawn("h:opendown", func() { w.OpenDown(ctx, "d9", kit.Filter("src9"), iscp.WithDownstreamQoS(message.QoSReliable)) })
+		spawn("h:openup", func() {
+			w.OpenUp(ctx, "u9", iscp.WithUpstreamFlushPolicyImmediately(), iscp.WithUpstreamQoS(message.QoSReliable), iscp.WithUpstreamCloseTimeout(2*time.Second))
+		})
+		spawn("h:meta", func() { w.Conn.SendMetadata(ctx, &message.BaseTime{SessionID: "s", Name: "m9"}) })
 	case strings.HasPrefix(w.p.W, "W4"):
 		spawn("h:meta", func() { w.Conn.SendMetadata(ctx, &message.BaseTime{SessionID: "s", Name: "m"}) })
 		spawn("h:call", func() {
